@@ -98,4 +98,28 @@ CHECKS["C18"] = {
     "note": "Limits above 200 are not explored (the deterministic visitor recurses ~2 Python frames per level; configured limits of several hundred reach the interpreter's own limit - recorded in DESIGN.md as out of the explored range). Branching cycles only for small limits.",
     "technique": "bounded-exhaustive enumeration of shapes x limits; choice-tree exploration of the real code in nondeterministic mode (deviation-bounded for large limits)",
 }
+CHECKS["C14"] = {
+    "text": "Explicit-state exploration of API histories: every sequence of <=2 operations over an alphabet of 31 concrete operations (compile / apply a compiled query / find via an environment / module-level find / register a function / instantiate a subclass) on 5 environments, 8 queries and 4 documents, and every sequence of 3 over a reduced 14-operation alphabet (<=3 full and 4 reduced in thorough), plus one chained history of 2 000 steps. Every history runs on a freshly imported package (sys.modules purge, regex cache purge) and is compared step by step with a model (per-environment registry + R3); every document is snapshotted (deep copy + identity of every container) around each operation. Function f1 has a different implementation per environment so leakage shows as behaviour.",
+    "ref": "DESIGN.md section 5, C14",
+    "note": "Histories are never merged (hidden state is what is hunted). Bounded by history length and by the operation alphabet.",
+    "technique": "explicit-state enumeration of operation histories on the real package (fresh import per history) against a reference model",
+}
+CHECKS["C15"] = {
+    "text": "702 structural queries (depth<=2 over the 26-segment alphabet), 529 filter queries, 60 invalid queries (every error class) and deep-document cases x all JSON trees with <=2 (quick) / <=3 (thorough) nodes, 47 kinds and deep documents x 14 call paths (module-level and environment find / finditer / find_one / compile().find / apply / finditer / find_one). All paths must give the same [(location, value identity)] list, find_one its first element or None, and the same exception class on failure. 1.7 M path executions in quick.",
+    "ref": "DESIGN.md section 5, C15",
+    "note": "Differential oracle between entry points (agreement with RFC semantics is C01/C02). find_one on an evaluation-time recursion error may legitimately return the first node (lazy).",
+    "technique": "bounded-exhaustive differential enumeration over queries x documents x entry points",
+}
+CHECKS["C16"] = {
+    "text": "Iterator part: 10 queries x 6 sharing configurations (same compiled query / two compilations / two environments; same or different documents; 2-3 live iterators): ALL interleavings of the first 5 (k=2) / 3 (k=3) next() calls of each iterator (7 / 4 in thorough), each schedule replayed on fresh iterators and compared item by item with the solitary run, plus every single close()/drop point for k=2. Thread part: 9 two-thread harnesses on shared query/environment objects run on real threads under a cooperative scheduler (sys.settrace line events in package code are scheduling points, one baton, cooperative Lock/RLock): all schedules with <=1 preemption (quick, ~29 000 executions) / <=2 (thorough, capped per harness); each thread must observe its sequential result.",
+    "ref": "DESIGN.md section 5, C16",
+    "note": "Thread schedules at source-line granularity under the GIL; interleavings inside one line or inside the C regex engine are not covered. Preemption bound completed is reported per harness.",
+    "technique": "stateless exploration of schedules of the real code: all next() interleavings; controlled-scheduler thread exploration with iterative preemption bounding",
+}
+CHECKS["C20"] = {
+    "text": "Full product of 32 option sets (-q/-r, -f/stdin, stdout/-o, --pretty, --debug) x 13 queries (valid structural/filter/non-ASCII, syntax, type, name, index, overflow, lexer errors) x 14 documents (small, non-ASCII, nesting 150, invalid JSON at three positions, empty, non-UTF-8) = 5 824 runs driven in-process through cli.main() with patched argv/stdio; expected output computed from find().values(). 48 cases are replayed through real `python -m jsonpath_rfc9535` subprocesses and must match the in-process observation (exit status, stdout, stderr, output file).",
+    "ref": "DESIGN.md section 5, C20",
+    "note": "In-process driving is validated against real subprocesses on a fixed subset in every run.",
+    "technique": "bounded-exhaustive enumeration of option sets x inputs, harness conformance-checked against the real process",
+}
 PENDING = {}
